@@ -51,6 +51,8 @@ Edits == <<
   [r |-> "memory-agree", f |-> SvcA(Put(Limits("memory", S("2g")), "mem_limit", S("1g")))],
   [r |-> "mem-reservation-agree", f |-> SvcA(M2("mem_reservation", S("1g"), "deploy", M1("resources", M1("reservations", M1("memory", S("2g"))))))],
   [r |-> "pids-agree", f |-> SvcA(Put(Limits("pids", I(2)), "pids_limit", I(1)))],
+  [r |-> "pids-agree", f |-> SvcA(Put(Limits("pids", I(100)), "pids_limit", I(0 - 1)))],
+  [r |-> "pids-agree", f |-> SvcA(Put(Limits("pids", I(0 - 1)), "pids_limit", I(100)))],
   [r |-> "external-volume-no-params", f |-> Nest(<<"volumes", "v">>, M2("external", B(TRUE), "driver", S("foo")))],
   [r |-> "external-volume-no-params", f |-> Nest(<<"volumes", "v">>, M2("external", B(TRUE), "labels", M1("l", S("1"))))],
   [r |-> "secret-one-source", f |-> Nest(<<"secrets", "s">>, M1("file", Tagged(Null, "reset")))],
@@ -59,6 +61,10 @@ Edits == <<
   [r |-> "secret-one-source", f |-> Nest(<<"secrets", "s">>, M2("driver", S("custom"), "file", Tagged(Null, "reset")))],
   [r |-> "config-one-source", f |-> Nest(<<"configs", "c">>, M1("file", Tagged(Null, "reset")))],
   [r |-> "config-one-source", f |-> Nest(<<"configs", "c">>, M1("content", S("x")))],
+  [r |-> "config-one-source", f |-> Nest(<<"configs", "c">>, M2("external", B(FALSE), "content", S("x")))],
+  [r |-> "secret-one-source", f |-> Nest(<<"secrets", "s">>, M2("external", B(FALSE), "environment", S("E")))],
+  [r |-> "secret-one-source", f |-> Nest(<<"secrets", "s">>, M2("external", B(TRUE), "environment", S("E")))],
+  [r |-> "config-one-source", f |-> Nest(<<"configs", "c">>, M2("external", B(TRUE), "environment", S("E")))],
   [r |-> "config-one-source", f |-> Nest(<<"configs", "c">>, M2("external", B(FALSE), "file", Tagged(Null, "reset")))],
   [r |-> "secret-one-source", f |-> Nest(<<"secrets", "s">>, M2("external", B(FALSE), "file", Tagged(Null, "reset")))],
   [r |-> "acyclic", f |-> Nest(<<"services", "b">>, M1("depends_on", M1("a", Dep)))],
@@ -83,6 +89,7 @@ Valids == <<
   SvcA(M1("depends_on", M1("off", OptDep))),
   SvcA(M2("scale", I(2), "deploy", M1("replicas", I(2)))),
   SvcA(Put(Limits("memory", S("1g")), "mem_limit", S("1g"))),
+  SvcA(Put(Limits("pids", I(0 - 1)), "pids_limit", I(0 - 1))),
   SvcA(M1("volumes", Sq1(M2("type", S("volume"), "target", S("/anon"))))),
   SvcA(M1("volumes", Sq1(M3("type", S("bind"), "source", S("/host"), "target", S("/x"))))),
   SvcA(M1("ipc", S("service:b"))),
